@@ -12,7 +12,7 @@ use std::time::{Duration, UNIX_EPOCH};
 
 pub const LEVEL: &str = "exploration";
 pub const EXHAUSTIVE: bool = false;
-pub const RULE: &str = "generated case = (cfg1, cfg2) over phonetic<->Probhat, phonetic<->synthetic, Probhat<->synthetic and same layout with 1..11 option flips (same data directory); optional initial user auto-correct file; pre-history H1 of 0..5 words (typed, then finished or committed - also non-preselected, i.e. learned); user auto-correct edit in {none, create, change the value of a key typed in H1, add a key for a base of a word typed in H1, remove a key, delete the file} with the file's mtime forced forward; continuation H2 of 1..6 words that re-types words of H1 and new ones, with commits. Oracle (differential): context A = H1, edit, update-engine(cfg2), H2; context B = created with cfg2 over a COPY of the user directory taken at the update, H2; renderings and session flags equal after every key of H2. Non-trivial: the edit touches a word (or a base of a word) typed in H1 and in H2, or the layout changes, or the suggestion option flips; distinct by case. Plus an enumerated part: every SINGLE option flipped by update-engine (11 options x both directions via 6 base settings x 3 layouts), judged on a battery of probes that is sensitive to each option (quoted word, sign at the start, sign after chandrabindu, u-sign after a consonant, reph, left-standing sign first, dictionary prefix, number-pad keys, emoticon; phonetic: quoted words, emoticon, emoji name, learned word, suffix form). Layout pairs include Probhat <-> a different layout file with the same file NAME in another directory.";
+pub const RULE: &str = "generated case = (cfg1, cfg2) over phonetic<->Probhat, phonetic<->synthetic, Probhat<->synthetic and same layout with 1..11 option flips (same data directory); optional initial user auto-correct file; pre-history H1 of 0..5 words (typed, then finished or committed - also non-preselected, i.e. learned); user auto-correct edit in {none, create, change the value of a key typed in H1, add a key for a base of a word typed in H1, remove a key, delete the file} with the file's mtime forced forward; continuation H2 of 1..6 words that re-types words of H1 and new ones, with commits. Oracle (differential): context A = H1, edit, update-engine(cfg2), H2; context B = created with cfg2 over a COPY of the user directory taken at the update, H2; renderings and session flags equal after every key of H2. Non-trivial: the edit touches a word (or a base of a word) typed in H1 and in H2, or the layout changes, or the suggestion option flips; distinct by case. Plus an enumerated part: every SINGLE option flipped by update-engine (11 options x both directions via 6 base settings x 3 layouts), judged on a battery of probes that is sensitive to each option (quoted word, sign at the start, sign after chandrabindu, u-sign after a consonant, reph, left-standing sign first, dictionary prefix, number-pad keys, emoticon; phonetic: quoted words, emoticon, emoji name, learned word, suffix form). Layout pairs include Probhat <-> a different layout file with the same file NAME in another directory. Edit kinds include a same-length value (the file's size stays); plus a directed part: every entry of the four start documents x {same-length value, entry removed, value changed} x English x commit/finish, words and suffixed forms typed before and after.";
 pub const ASSUMPTIONS: &[&str] = &[
     "mtime is forced forward on every edit, so 'edited in the meantime' is unambiguous",
     "the bundled data directory is the same in cfg1 and cfg2",
@@ -49,6 +49,8 @@ pub enum Edit {
     /// the file is moved away, the context is told (update-engine, same configuration), and the file is put back
     /// untouched - same content, same modification time
     AwayAndBack,
+    /// the value of one key is replaced by another of the same length: the file's size stays, content and time change
+    SameLength(u8),
 }
 
 #[derive(Clone, Debug, Serialize, Deserialize, Hash)]
@@ -221,6 +223,28 @@ pub fn run_case(c: &Case, st: &mut Stats) -> Result<(), Failure> {
             }
             let _ = std::fs::remove_file(&acp);
             doc = None;
+        }
+        Edit::SameLength(k) => {
+            if let (Some(mut d), Ok(old_bytes)) = (doc.clone(), std::fs::read(&acp)) {
+                if !d.is_empty() {
+                    let key = d.keys().nth(*k as usize % d.len()).cloned().unwrap();
+                    let mut cs: Vec<char> = d[&key].chars().collect();
+                    if let Some(l) = cs.last_mut() {
+                        *l = if *l == 'k' { 't' } else { 'k' };
+                    }
+                    d.insert(key.clone(), cs.into_iter().collect());
+                    touched.push(key);
+                    let text = serde_json::to_string(&d).unwrap();
+                    let bytes: Vec<u8> = if old_bytes.starts_with(&[0xEF, 0xBB, 0xBF]) { [&[0xEF, 0xBB, 0xBF][..], text.as_bytes()].concat() } else { text.into_bytes() };
+                    if bytes.len() == old_bytes.len() && bytes != old_bytes {
+                        st.label("edit-keeps-the-file-size");
+                    }
+                    std::fs::write(&acp, bytes).expect("write autocorrect");
+                    clock += 10;
+                    std::fs::File::options().write(true).open(&acp).expect("open autocorrect").set_modified(UNIX_EPOCH + Duration::from_secs(clock)).expect("set mtime");
+                    doc = Some(d);
+                }
+            }
         }
         Edit::AwayAndBack => {
             if let (Some(d), Ok(bytes), Ok(m)) = (&doc, std::fs::read(&acp), std::fs::metadata(&acp).and_then(|m| m.modified())) {
@@ -552,6 +576,7 @@ pub fn strategy() -> impl Strategy<Value = Case> {
         4 => (any::<u8>(), any::<u8>()).prop_map(|(a, b)| Edit::ChangeValue(a, b)),
         3 => (any::<u8>(), any::<u8>()).prop_map(|(a, b)| Edit::AddBaseKey(a, b)),
         1 => any::<u8>().prop_map(Edit::RemoveKey),
+        1 => any::<u8>().prop_map(Edit::SameLength),
         2 => Just(Edit::DeleteFile),
         2 => Just(Edit::AwayAndBack),
     ];
@@ -576,8 +601,41 @@ pub fn strategy() -> impl Strategy<Value = Case> {
         })
 }
 
+/// One entry of the user's list changed while the file stays: its value replaced by one of the same length (the
+/// file's size is unchanged, only content and time stamp move), or the entry alone removed - after the word (and a
+/// suffixed form) was typed in the live context, and judged on the same words typed again.
+fn directed_entry_edits(run: &Run) {
+    let idx = |w: &str| WORDS.iter().position(|x| *x == w).map(|i| i as u16);
+    let mut cases: Vec<Case> = vec![];
+    for k in 0..4u8 {
+        let d = initial_doc(k);
+        let keys_of: Vec<String> = d.keys().cloned().collect();
+        let mut picks: Vec<u16> = keys_of.iter().filter_map(|w| idx(w)).collect();
+        for w in ["abce", "academyr", "parke", "abcgulo", "onnogulo"] {
+            if keys_of.iter().any(|k| w.starts_with(k.as_str())) {
+                picks.extend(idx(w));
+            }
+        }
+        for j in 0..keys_of.len() as u8 {
+            for (e, edit) in [Edit::SameLength(j), Edit::RemoveKey(j), Edit::ChangeValue(j, 1)].into_iter().enumerate() {
+                for bits in [0b010u16, 0b011] {
+                    for commit in [None, Some(0u16)] {
+                        let cfg = crate::driver::Opts::from_bits(0, bits).letters();
+                        let h1: Vec<WordStep> = picks.iter().map(|p| WordStep { pick: Pick::Word(*p), commit }).collect();
+                        let h2: Vec<WordStep> = (0..picks.len() as u8).map(|i| WordStep { pick: Pick::Again(i), commit: None }).collect();
+                        cases.push(Case { cfg1: cfg.clone(), cfg2: cfg.clone(), ac0: Some(k), h1, edit: edit.clone(), h2, store0: false, mid: None, via: if e == 0 && bits == 0b011 { Some(3) } else { None } });
+                    }
+                }
+            }
+        }
+    }
+    run.exhaustive("one-entry-of-the-user-list-changed-while-the-file-stays", &cases, |_| (), |c: &Case, st, _| run_case(c, st));
+}
+
 pub fn run(run: &Run) {
     single_flips(run);
+    directed_entry_edits(run);
+    run.require_label("edit-keeps-the-file-size", 8);
     run.require_label("single-option-flips", 190);
     run.sharded("update-vs-new-context", 16, run.tier.pick(300, 7000), 400, strategy, |_| (), |c: &Case, st, _| run_case(c, st));
     run.require_label("edit-touches-word-typed-before-and-after", 50);
